@@ -812,7 +812,7 @@ var rejectClasses = []struct{ sub, label string }{
 
 func rejectClass(err error) string {
 	if err == nil {
-		return "nil-result"
+		return "-"
 	}
 	s := err.Error()
 	for _, c := range rejectClasses {
